@@ -1,12 +1,12 @@
 (* C04 — model of ffi.cast to integer / character types.
 
    Hand-transcribed (tied by the correspondence run of tools/props/c04.py):
-     cast_to_integer_or_char                 src/c/_cffi_backend.c:4032
-     _my_PyObject_AsBool                                           :3967
+     cast_to_integer_or_char                 src/c/_cffi_backend.c:4068
+     _my_PyObject_AsBool                                           :4003
      _my_PyLong_AsUnsignedLongLong(ob, 0) (masking; floats via nb_int = truncation)  :869
      write_raw_integer_data                                        :970   (C03/Mem.v)
-     cdata_int (what int() of the result returns)                  :2308
-     do_cast, pointer branch                                       :4128
+     cdata_int (what int() of the result returns)                  :2332
+     do_cast, pointer branch                                       :4160
    Sources the property lists: Python int (bool = 0/1), finite float m*2^e, 1-byte bytes,
    one-character str, pointer/array/function cdata (its address).  The other outcomes of the real
    code are explicit as well: infinities/NaN, bytes/str of another length, objects without
